@@ -4,12 +4,18 @@
    fl is the flag sequence handed to the real binary, opts the options it denotes. *)
 EXTENDS CliFlags, TLC
 CONSTANTS MaxFlags, NInputs
-VARIABLES lang, fl, opts, inp
-vars == <<lang, fl, opts, inp>>
+VARIABLES lang, fl, opts, inp, ty, how      \* ty = 0: flag case; otherwise row of TypeTable, how = index in Hows
+vars == <<lang, fl, opts, inp, ty, how>>
 
+\* rows whose failure is a pinned known finding (known/C16.txt: xhtml is mapped to the unregistered
+\* mimetype application/xhtml-xml); the pinned witness keeps it visible
+KnownBrokenTypes == {CHOOSE r \in TypeRows : TypeTable[r].type = "xhtml"}
 OptsOf(s) == [i \in 1..Len(s) |-> [opt |-> RowOf(s[i].flag).opt, val |-> s[i].val]]
-Init == lang \in Langs /\ fl = <<>> /\ opts = <<>> /\ inp \in 1..NInputs
+Init == \/ lang \in Langs /\ fl = <<>> /\ opts = <<>> /\ inp \in 1..NInputs /\ ty = 0 /\ how = 0
+        \/ \E r \in TypeRows \ KnownBrokenTypes : /\ ty = r /\ lang = TypeTable[r].lang /\ how \in 1..Len(Hows)
+                               /\ fl = <<>> /\ opts = <<>> /\ inp \in 1..NInputs
 Next ==
+  /\ ty = 0
   /\ Len(fl) < MaxFlags
   /\ \E i \in Rows : \E v \in Values(FlagTable[i]) :
        /\ FlagTable[i].lang = lang
@@ -17,9 +23,11 @@ Next ==
        /\ Len(fl) > 0 => (CHOOSE k \in Rows : FlagTable[k].flag = fl[Len(fl)].flag) < i   \* unordered sets
        /\ fl' = Append(fl, [flag |-> FlagTable[i].flag, val |-> v])
        /\ opts' = OptsOf(fl')
-  /\ UNCHANGED <<lang, inp>>
+  /\ UNCHANGED <<lang, inp, ty, how>>
 Spec == Init /\ [][Next]_vars
 
+\* every type of the table names a minifier that has flags in the flag table (a known language)
+TypesKnown == \A r \in TypeRows : TypeTable[r].lang \in Langs
 \* the table is a function: no flag twice, no (lang, option) twice
 TableFunctional ==
   \A i, j \in Rows : i # j => /\ FlagTable[i].flag # FlagTable[j].flag
